@@ -60,6 +60,7 @@ class _Random(object):
     s = sorted(seq)                       # independent of set iteration order
     x = s[w.rng.randrange(len(s))]
     w.ev('choice', [id_of(e) for e in s], id_of(x))
+    w.expanding = True      # the next CreateSink is the expansion to x (also when it happens while members join)
     return x
 
   def randint(self, a, b):
@@ -146,7 +147,7 @@ def install(repo):
   Heap = heapmod.HeapBalancerSink
   Ap = apmod.ApertureBalancerSink
 
-  def wrap(cls, name, pre):
+  def wrap(cls, name, pre, end=None):
     orig = cls.__dict__[name]
 
     def f(self, *a, **k):
@@ -154,7 +155,11 @@ def install(repo):
       if w is None:
         return orig(self, *a, **k)
       tok = pre(w, self, a)
-      r = orig(self, *a, **k)
+      try:
+        r = orig(self, *a, **k)
+      finally:
+        if end is not None:
+          w.ev(end)          # hooks may be re-entered (a channel completing requests inside Close()): mark where one ends
       if tok is not None:
         tok(r)
       return r
@@ -176,9 +181,9 @@ def install(repo):
 
   wrap(Heap, '_AddSink', pre_add)
   wrap(Heap, '_RemoveSink', pre_remove)
-  wrap(Ap, '_OnNodeDown', pre_down)
-  wrap(Ap, '_OnGet', lambda w, self, a: w.ev('onget', id_of(a[0].endpoint)) and None)
-  wrap(Ap, '_OnPut', lambda w, self, a: w.ev('onput', id_of(a[0].endpoint)) and None)
+  wrap(Ap, '_OnNodeDown', pre_down, 'down-end')
+  wrap(Ap, '_OnGet', lambda w, self, a: w.ev('onget', id_of(a[0].endpoint)) and None, 'onget-end')
+  wrap(Ap, '_OnPut', lambda w, self, a: w.ev('onput', id_of(a[0].endpoint)) and None, 'onput-end')
 
   class Chan(ClientMessageSink):
     def __init__(self, world, epid, cid):
@@ -200,15 +205,38 @@ def install(repo):
       self._state = v
 
     def Open(self):
-      self.world.ev('open', self.cid)
+      w = self.world
+      w.ev('open', self.cid)
       if self.open_ar is None:
         self.open_ar = AsyncResult()
-        self.world.opening.append(self)
+        mode = None
+        if w.sync_open and w.rng.random() < w.sync_open:
+          mode = 'ok' if w.rng.random() < 0.7 else 'fail'
+        if mode is None:
+          w.opening.append(self)
+        else:
+          # a collaborator that completes synchronously: the result is already set when Open() returns
+          self._state = ChannelState.Open if mode == 'ok' else ChannelState.Closed
+          if self.cause == 'expand':
+            w.sync_fresh.append(self.cid)
+          w.ev('chanstate', self.cid, self.epid, int(self._state))
+          if mode == 'ok':
+            self.open_ar.set(True)
+          else:
+            self.open_ar.set_exception(Exception('open failed at once'))
       return self.open_ar
 
     def Close(self):
-      self.world.ev('close', self.cid)
+      w = self.world
+      w.ev('close', self.cid)
       self._state = ChannelState.Closed
+      if w.close_inline:
+        # a collaborator that fails its in-flight requests inline, i.e. re-enters the balancer from inside
+        # heap._RemoveSink / _ContractAperture (one request at a time, each taken off the books first)
+        while self.held:
+          st = self.held.pop(0)
+          w.outstanding[:] = [x for x in w.outstanding if x[1] is not st]
+          st.AsyncProcessResponseMessage(MethodReturnMessage(error=FailedFastError()))
 
     def AsyncProcessRequest(self, sink_stack, msg, stream, headers):
       self.world.ev('req', self.cid, self.epid)
@@ -229,7 +257,8 @@ def install(repo):
       w = self.world
       epid = id_of(props[SinkProperties.Endpoint])
       c = Chan(w, epid, len(w.chans))
-      c.cause = w.cause
+      c.cause = 'expand' if w.expanding else w.cause
+      w.expanding = False
       w.chans.append(c)
       w.ev('create', c.cid, epid)
       return c
@@ -249,15 +278,22 @@ def install(repo):
       return list(self.initial)
 
   class Stack(ClientMessageSinkStack):
-    def __init__(self):
+    def __init__(self, world=None, again=False):
       super(Stack, self).__init__()
       self.done = False
       self.msg = None
+      self.world = world
+      self.again = again        # the caller dispatches one more request from inside its completion callback
 
     def AsyncProcessResponse(self, stream, msg):
       if not self.Any():
         self.done = True
         self.msg = msg
+        if self.again and self.world is not None:
+          self.again = False
+          self.world.ev('redispatch')
+          self.world.dispatch(False)
+        return
       super(Stack, self).AsyncProcessResponse(stream, msg)
 
   S.update(gevent=gevent, varz=varz, apmod=apmod, heapmod=heapmod, AsyncResult=AsyncResult, ChannelState=ChannelState,
@@ -279,9 +315,13 @@ class World(object):
     self.scheduled = []        # jitter actions handed to the timer queue and not yet fired
     self.jitter_g = None
     self.failfast = bool(cfg.get('failfast'))
+    self.close_inline = bool(cfg.get('close_inline'))
+    self.sync_open = cfg.get('sync_open') or 0
     self.errors = []
     self.cause = 'join'
     self.act = []
+    self.sync_fresh = []
+    self.expanding = False
     World._n[0] += 1
     self.label = 'c06-%d' % World._n[0]
     CUR[0] = self
@@ -290,7 +330,8 @@ class World(object):
     self.provider = S['Provider'](cfg['init'])
     props.update(server_set_provider=self.provider, min_size=cfg['min_size'], max_size=cfg['max_size'],
                  min_load=cfg['min_load'], max_load=cfg['max_load'],
-                 jitter_min_sec=cfg.get('jitter_min', 0), jitter_max_sec=cfg.get('jitter_max', 0))
+                 jitter_min_sec=cfg.get('jitter_min', 0), jitter_max_sec=cfg.get('jitter_max', 0),
+                 smoothing_window=cfg.get('smoothing_window', 5))
     params = Ap.Builder.PARAMS_CLASS(**props)
     self.sink = Ap(S['Factory'](self), params, {S['SinkProperties'].Label: self.label})
     self.sink._c06_world = self
@@ -299,7 +340,7 @@ class World(object):
   def ev(self, *a):
     """Appends a trace record; its last element is a snapshot taken BEFORE the traced call runs:
     p/i/a/n = private pending, idle, heap members, size (diagnostic reads, None when unreadable);
-    cs = state of every mock channel by id, t = virtual time, out = requests held by the mock channels, xo = expansion-created channels whose Open() is still in progress."""
+    cs = state of every mock channel by id, t = virtual time, out = requests held by the mock channels, xo = expansion-created channels whose Open() is still in progress or completed inside Open() during this op (its completion callback has not run yet)."""
     rec = list(a)
     info = {'p': None, 'i': None, 'a': None, 'n': None}
     sink = getattr(self, 'sink', None)
@@ -320,10 +361,17 @@ class World(object):
     info['cs'] = [int(c.state) for c in self.chans]
     info['t'] = self.clock.now
     info['out'] = len(self.outstanding)
-    info['xo'] = [c.cid for c in self.opening if c.cause == 'expand']
+    info['xo'] = [c.cid for c in self.opening if c.cause == 'expand'] + list(self.sync_fresh)
     rec.append(info)
     self.events.append(rec)
     return rec
+
+  def dispatch(self, again):
+    """One request through the sink, as a caller does it; returns (stack, message)."""
+    st = S['Stack'](self, again)
+    m = S['Message']()
+    self.sink.AsyncProcessRequest(st, m, None, None)
+    return st, m
 
   def take_events(self):
     e = self.events
